@@ -4,7 +4,7 @@ From Coq Require Import String.
 From Coq Require Import List NArith ZArith Bool Lia.
 From VRL Require Import Base.Bytes Base.Value Base.Lit Model.ConvRes Model.IntText Model.Ip Model.Entries
   Model.Flatten Model.UnixTs Model.TsText
-  Proofs.IntTextProofs Proofs.IpProofs Proofs.Ip6Proofs Proofs.EntriesProofs Proofs.UnixTsProofs Proofs.FlattenProofs.
+  Proofs.IntTextProofs Proofs.IpProofs Proofs.Ip6Proofs Proofs.EntriesProofs Proofs.UnixTsProofs Proofs.FlattenProofs Proofs.TsTextProofs.
 (* no statement below uses it: required only so that building this file also rebuilds the correspondence
    glue against the same compiled models *)
 From VRL Require Corr.C25.
@@ -152,6 +152,28 @@ Theorem C25_unix_to_from_exact : forall u ns,
 Proof. exact to_from_unix_exact. Qed.
 Print Assumptions C25_unix_to_from_exact.
 
+(* ---------------- format_timestamp / parse_timestamp ---------------- *)
+
+(* the calendar arithmetic both directions rest on: every day number is the day number of its own date *)
+Theorem C25_calendar_inverse : forall z,
+  let '(y, m, d) := civil_from_days z in days_from_civil y m d = z.
+Proof. exact days_civil. Qed.
+Print Assumptions C25_calendar_inverse.
+
+(* Full statement wanted: for every full-precision format f and every timestamp t chrono can hold,
+     parse_timestamp (format_timestamp t f) f = t.
+   It is false for the formats built on %s (negative epochs) and on %Z (see the known findings), and chrono's
+   strftime interpreter is modelled only for the four layouts of Model/TsText.v (layout_of):
+     %Y-%m-%dT%H:%M:%S%.9f%z    %Y-%m-%dT%H:%M:%S%.f%:z    %+    %Y-%m-%d %H:%M:%S.%f  (program timezone UTC).
+   Proved: on each of these, for every timestamp in chrono's range (years -262143 ..= 262142, nanosecond
+   resolution), the modelled parser reads the modelled formatter's text back as the same timestamp. *)
+Theorem C25_timestamp_text_layouts_partial : forall fmt l ns,
+  layout_of fmt = Some l -> ts_in_range ns = true ->
+  exists s, format_timestamp (VTs ns) (VBytes fmt) = Some (ROk (VBytes s))
+            /\ parse_timestamp (VBytes s) (VBytes fmt) = Some (ROk (VTs ns)).
+Proof. exact timestamp_text_roundtrip. Qed.
+Print Assumptions C25_timestamp_text_layouts_partial.
+
 (* ---------------- non-vacuity ---------------- *)
 Example C25_hypotheses_nonvacuous :
   (2 <= 36 <= 36 /\ in_i64 (i64_min + 1) = true /\ i64_min + 1 <> i64_min
@@ -163,6 +185,16 @@ Example C25_hypotheses_nonvacuous :
       /\ from_unix_timestamp (VInt (-2)) Seconds = ROk (VTs (-2000000000)))
   /\ ts_in_range (ts_min_secs * 1000000000) = true /\ ts_in_range (ts_max_secs * 1000000000 + 999999999) = true.
 Proof. vm_compute. repeat split; congruence. Qed.
+
+Example C25_timestamp_text_nonvacuous :
+  layout_of (ascii_bytes "%+") = Some LRfc3339
+  /\ layout_of (ascii_bytes "%Y-%m-%dT%H:%M:%S%.9f%z") = Some LIsoNano
+  /\ layout_of (ascii_bytes "%Y-%m-%dT%H:%M:%S%.f%:z") = Some LIsoAuto
+  /\ layout_of (ascii_bytes "%Y-%m-%d %H:%M:%S.%f") = Some LSpaceNum
+  /\ format_layout LRfc3339 (-62167219200000000001) = ascii_bytes "-0001-12-31T23:59:59.999999999+00:00"
+  /\ format_layout LIsoNano (ts_max_secs * 1000000000 + 5) = ascii_bytes "+262142-12-31T23:59:59.000000005+0000"
+  /\ civil_from_days 11016 = (2000, 2, 29).
+Proof. vm_compute. repeat split; reflexivity. Qed.
 
 Example C25_ipv6_nonvacuous :
   Forall u16 [8193; 3512; 0; 0; 1; 0; 0; 1] /\ ipv6_to_string [8193; 3512; 0; 0; 1; 0; 0; 1] = ascii_bytes "2001:db8::1:0:0:1"
